@@ -79,8 +79,9 @@ def flowReply (input impl : Json) : R Reply := do
                   s!"flow:{if mayProcess then "released" else "withheld"}",
                   s!"flow:report-size={max rn 1}",
                   s!"flow:w-at={if rn ≤ 1 then "only" else if rpos = 0 then "first" else if rpos + 1 = rn then "last" else "middle"}"] ++
-                 (if firstRefused then ["flow:first-upkeep-refused"] else []),
-         key := s!"flow/{path}/{ty}/{phase}/{b}/{tb}/{cb}/{cfg.minConf}/{cfg.window}/{rn}/{rpos}/{firstRefused}" }
+                 (if firstRefused then ["flow:first-upkeep-refused"] else []) ++
+                 (match fieldD input "decoy" .null with | .null => [] | _ => ["flow:decoy-first"]),
+         key := s!"flow/{path}/{ty}/{phase}/{b}/{tb}/{cb}/{cfg.minConf}/{cfg.window}/{rn}/{rpos}/{firstRefused}/{(fieldD input "decoy" .null).compress}" }
 
 def handle (input impl : Json) : R Reply := do
   if let some k := isRace input then
